@@ -13,6 +13,8 @@ pub mod native {
     thread_local! {
         pub static QUEUE: RefCell<VecDeque<Vec<u8>>> = RefCell::new(VecDeque::new());
         pub static EXHAUSTED: RefCell<bool> = RefCell::new(false);
+        /// random-validation mode only: `below(n)` folds its draw into range instead of assuming
+        pub static LENIENT: RefCell<bool> = RefCell::new(false);
     }
     pub struct AssumeViolated;
     pub fn load(vals: Vec<Vec<u8>>) {
@@ -111,6 +113,28 @@ pub fn any_usize() -> usize {
 #[inline(always)]
 pub fn below(n: u8) -> u8 {
     let v = any_u8();
+    #[cfg(not(kani))]
+    let v = if native::LENIENT.with(|l| *l.borrow()) { v % n } else { v };
+    assume(v < n);
+    v
+}
+
+/// `any_u32` constrained to `0..n`.
+#[inline(always)]
+pub fn below_u32(n: u32) -> u32 {
+    let v = any_u32();
+    #[cfg(not(kani))]
+    let v = if native::LENIENT.with(|l| *l.borrow()) { v % n } else { v };
+    assume(v < n);
+    v
+}
+
+/// `any_u64` constrained to `0..n`.
+#[inline(always)]
+pub fn below_u64(n: u64) -> u64 {
+    let v = any_u64();
+    #[cfg(not(kani))]
+    let v = if native::LENIENT.with(|l| *l.borrow()) { v % n } else { v };
     assume(v < n);
     v
 }
@@ -157,9 +181,23 @@ macro_rules! cover {
 }
 
 /// Declares harnesses: each becomes a `#[kani::proof]` under Kani and an entry
-/// of the module's replay table natively.
+/// of the module's replay table natively.  An optional leading
+/// `common { #[cfg_attr(kani, kani::stub(..))] .. }` block is applied to every harness.
 #[macro_export]
 macro_rules! harnesses {
+    (common { $($c:tt)* } $($rest:tt)*) => {
+        $crate::harnesses!(@munch [$($c)*] [] $($rest)*);
+    };
+    (@munch [$($c:tt)*] [$($names:ident)*] $(#[$m:meta])* fn $name:ident() $body:block $($rest:tt)*) => {
+        #[cfg_attr(kani, kani::proof)]
+        $($c)*
+        $(#[cfg_attr(kani, $m)])*
+        pub fn $name() $body
+        $crate::harnesses!(@munch [$($c)*] [$($names)* $name] $($rest)*);
+    };
+    (@munch [$($c:tt)*] [$($names:ident)*]) => {
+        pub const TABLE: &[(&str, fn())] = &[ $( (stringify!($names), $names as fn()) ),* ];
+    };
     ($( $(#[$m:meta])* fn $name:ident() $body:block )*) => {
         $(
             #[cfg_attr(kani, kani::proof)]
